@@ -771,3 +771,75 @@ def r53_string_index_guard(ctx):
 
 
 RULES["R53"] = r53_string_index_guard
+
+
+# ------------------------------------------------------------------- R54
+def r54_year_bounds_inclusive(ctx):
+    """The dumper refuses a year only outside the closed range its format
+    can hold (0..9999, or +-10**(4+n) - 1 with n expanded digits): both
+    ends are representable, so the refusal test must be inclusive at both
+    ends."""
+    rep = ctx.rep
+    rule = "R54.year-bounds-inclusive"
+    P = ("C17", "C08")
+    from ..flow import path_conds
+    f = ctx.try_func(
+        "dumpers.TimePointDumper._dump_expression_with_properties")
+    rep.need_anchor(rule, "year bounds refusal")
+    if f is None:
+        raise AnalysisError("TimePointDumper._dump_expression_with_"
+                            "properties not found")
+    raises = [n for n in walk_no_nested(f.node) if isinstance(n, ast.Raise)
+              and n.exc is not None and "BoundsError" in U(n.exc)]
+    if not raises:
+        rep.error("R54", "no TimePointDumperBoundsError raise found in %s" %
+                  f.qual)
+        return
+    for r in raises:
+        rep.anchor(rule, "year bounds refusal")
+        conds = path_conds(r)
+        verdict, why = None, ""
+        for t, pol in conds:
+            tt = U(t)
+            if "range(" in tt:
+                m = re.search(r"range\(([^,]+), (.+)\)", tt)
+                hi = m.group(2) if m else ""
+                incl = re.search(r"\+ 1\)?$", hi) is not None
+                verdict = incl
+                why = "membership in %s" % tt
+                break
+            inner = t
+            neg = False
+            if isinstance(inner, ast.UnaryOp) and isinstance(inner.op,
+                                                             ast.Not):
+                inner, neg = inner.operand, True
+            if isinstance(inner, ast.Compare) and len(inner.ops) == 2:
+                # refused when `not (lo <= v <= hi)`
+                ops = [type(o) for o in inner.ops]
+                if (neg and pol) or (not neg and not pol):
+                    verdict = ops == [ast.LtE, ast.LtE]
+                    why = tt
+                    break
+            if isinstance(inner, ast.BoolOp) and isinstance(
+                    inner.op, ast.Or) and pol and not neg:
+                ops = [type(v.ops[0]) for v in inner.values
+                       if isinstance(v, ast.Compare) and len(v.ops) == 1]
+                if len(ops) == 2:
+                    verdict = set(ops) <= {ast.Lt, ast.Gt}
+                    why = tt
+                    break
+        key = ctx.fkey(f, None, "inclusive")
+        if verdict is None:
+            rep.undecided(rule, key, f.loc(r), "the year bounds refusal is "
+                          "guarded by %s, a form this rule does not read" %
+                          [U(t) for t, _ in conds][:2], P)
+        else:
+            rep.check(verdict, rule, key, f.loc(r),
+                      "a year is refused only outside the closed range "
+                      "[min, max]",
+                      "the year bounds refusal (%s) excludes a bound that "
+                      "the format can represent: the year 9999 (or the "
+                      "largest expanded year) cannot be written" % why, P)
+
+
+RULES["R54"] = r54_year_bounds_inclusive
